@@ -1,12 +1,15 @@
 """C01-C04 share one suite for the agent scheduler (harness/schedlib.py, props/schedsuite.py);
 C01-C03 also cover the application-level slot finder (props/nodelistsuite.py)."""
-from props import schedsuite, nodelistsuite
+from props import schedsuite, nodelistsuite, noopsuite
 PROP = 'C03'
-LEAN_TARGETS = ['RPVerif.Props.C03']
+LEAN_TARGETS = ['RPVerif.Props.C03', 'RPVerif.Props.C07']
 def run(ctx):
     schedsuite.run(ctx, 'C03')
     nodelistsuite.run(ctx, 'C03')
+    noopsuite.run(ctx, 'C03')
 def replay(ctx, data):
+    if 'noop' in data['input']:
+        return noopsuite.replay(ctx, data)
     if 'nodelist' in data['input']:
         return nodelistsuite.replay(ctx, data, 'C03')
     return schedsuite.replay(ctx, data, 'C03')
